@@ -369,7 +369,84 @@ impl World {
     }
 }
 
+impl World {
+    /// the observable state in the shape of Boxes!Proj (Trace_Boxes!Observed says which parts are compared how)
+    fn proj(&self) -> Value {
+        let slots: Vec<Value> = self.slots.iter().map(|s| match s {
+            None => json!(["free", "typed", "heavy", [], "rust"]),
+            Some(s) => json!([s.kind, s.form, s.pk, s.ids, s.own]),
+        }).collect();
+        let kept: Vec<bool> = (1..self.next).map(|i| self.kept.iter().any(|(ids, _)| ids.contains(&i))).collect();
+        let drops: Vec<u32> = (1..self.next).map(|i| if self.zids.contains(&i) || self.pids.contains(&i) { 0 } else { payload::drops(i) }).collect();
+        json!({"slots": slots, "kept": kept, "drops": drops, "zdrops": Z_DROPS.load(SeqCst)})
+    }
+}
+
+/// impl -> spec: random operations on the real types, every event with the state observed after it (Trace_Boxes.tla)
+fn trace(out: &str, seed: u64, events: usize) {
+    let mut log = vkit::NdJson::create(out);
+    let mut rng = vkit::rng::Rng::new(seed);
+    let mut emitted = 0;
+    let nslots = 3;
+    while emitted < events {
+        let mut w = World::new(nslots);
+        log.emit(&json!({"op":"reset"}));
+        emitted += 1;
+        for _ in 0..(20 + rng.below(60)) {
+            if w.next > 140 {
+                break;
+            }
+            let mut cand: Vec<Value> = vec![];
+            for s in 0..nslots {
+                match &w.slots[s] {
+                    None => {
+                        let pk = *rng.pick(&["heavy", "zst", "pod"]);
+                        cand.push(match rng.below(4) {
+                            0 => json!({"op":"New","s":s+1,"kind":"sbox","pk":pk,"n":rng.below(4),"via":"from_box"}),
+                            1 => json!({"op":"New","s":s+1,"kind":"obj","pk":pk,"n":1,"via":"from_t"}),
+                            2 if pk != "zst" => json!({"op":"New","s":s+1,"kind":"cbox","pk":pk,"n":1,"via":*rng.pick(&["foreign","loan"])}),
+                            _ => json!({"op":"New","s":s+1,"kind":"cbox","pk":pk,"n":1,"via":*rng.pick(&["from_t","from_box","from_tuple"])}),
+                        });
+                    }
+                    Some(sl) => {
+                        cand.push(json!({"op":"Drop","s":s+1}));
+                        if sl.form == "typed" {
+                            cand.push(json!({"op":"IntoOpaque","s":s+1}));
+                            if sl.kind == "cbox" && sl.own == "rust" {
+                                cand.push(json!({"op":"IntoInner","s":s+1}));
+                            }
+                            if (sl.kind == "cbox" || sl.kind == "sbox") && !sl.ids.is_empty() {
+                                cand.push(json!({"op":"Write","s":s+1,"k":1 + rng.below(sl.ids.len())}));
+                                cand.push(json!({"op":"Write","s":s+1,"k":1 + rng.below(sl.ids.len())}));
+                            }
+                        }
+                    }
+                }
+            }
+            if !w.kept.is_empty() {
+                cand.push(json!({"op":"EnvRelease"}));
+            }
+            let e = rng.pick(&cand).clone();
+            w.apply(&e);
+            let mut ev = e.clone();
+            ev.as_object_mut().unwrap().insert("proj".into(), w.proj());
+            log.emit(&ev);
+            emitted += 1;
+        }
+        let bad = F_BAD.load(SeqCst) > 0 || payload::use_after_drop() > 0;
+        let td = w.teardown();
+        log.emit(&json!({"op":"quiescent","ok": td.is_none() && !bad, "msg": td.unwrap_or_default()}));
+        emitted += 1;
+    }
+    log.flush();
+    println!("{}", json!({"summary":"trace","events":emitted}));
+}
+
 pub fn main(args: &[String]) {
+    if args[0] == "trace" {
+        let geti = |f: &str, d: usize| vkit::arg_after(args, f).map(|s| s.parse().unwrap()).unwrap_or(d);
+        return trace(&args[1], geti("--seed", 1) as u64, geti("--events", 1000));
+    }
     let lines = vkit::read_lines(&args[1]);
     let mut failures = vec![];
     let mut steps = 0;
